@@ -15,6 +15,7 @@ Case formats (harness/c/drv_rledict.c):
   dict_dec HEX cap         both decoders on arbitrary bytes (exact-size guard-paged input)
 SEGS = L c1,s1,d1,c2,s2,d2,... : c1 values s1, s1+d1, ... (mod 2^64), then c2 values ...
 """
+import os
 import resource
 
 from vlib import *  # noqa
@@ -28,6 +29,8 @@ try:
         resource.setrlimit(resource.RLIMIT_STACK, (_h, _h))
 except Exception:  # pragma: no cover
     pass
+# a larger minor heap keeps the OCaml runtime from rescanning a deep stack at every minor GC
+os.environ.setdefault("OCAMLRUNPARAM", "s=32M")
 
 FILES = ["src/varintRLE.c", "src/varintRLE.h", "src/varintDict.c", "src/varintDict.h"]
 DICT_MAX = 1 << 20
@@ -154,7 +157,7 @@ def rle_arrays(rng, tier, nr=None):
     for k in (1, 50, 120, 121):
         yield [(1, 0, 0), (1, 1, 0)] * k                   # alternating
     if nr is None:
-        nr = 400 if tier == "quick" else 6000
+        nr = 400 if tier == "quick" else 2500
     for _ in range(nr):
         alpha = [rng.choice(P) if rng.random() < 0.7 else rand_u64(rng) for _ in range(rng.randint(1, 4))]
         tr = []
@@ -164,7 +167,7 @@ def rle_arrays(rng, tier, nr=None):
         yield tr
 
 
-def dict_arrays(rng, tier, nr=None):
+def dict_arrays(rng, tier, nr=None, huge=False):
     P = pool()
     dsizes = [1, 2, 3, 255, 256, 257]
     big = [65535, 65536, 65537]
@@ -185,12 +188,12 @@ def dict_arrays(rng, tier, nr=None):
         if tier != "quick":
             yield [(D, (999 + D) & U64, U64)]
             yield [(D, rng.getrandbits(64), 0x9E3779B97F4A7C15)]
-    if tier != "quick":
+    if tier != "quick" and huge:
         # F05: the decoders' limit of 2^20 entries
         yield [(DICT_MAX, 0, 1), (2, 5, 0)]
         yield [(DICT_MAX + 1, 0, 1)]
     if nr is None:
-        nr = 400 if tier == "quick" else 6000
+        nr = 400 if tier == "quick" else 2500
     for _ in range(nr):
         alpha = [rng.choice(P) if rng.random() < 0.6 else rand_u64(rng) for _ in range(rng.randint(1, 9))]
         tr = []
@@ -218,15 +221,20 @@ def with_pairs(rng, tier):
 
 # ------------------------------------------------------------------ case generators
 
-def generate_enc(rng, tier):
-    """C02 / C03 / C16 share the encoder cases"""
+def generate_enc(rng, tier, huge=False):
+    """C02 / C03 share the encoder cases (the 2^20 / 2^20+1-distinct-value arrays of the thorough
+    tier, which take minutes in the extracted model, are run for C02 only)"""
     for tr in rle_arrays(rng, tier):
         yield "rle_enc %s 0" % segs(tr)
         yield "rle_enc %s 1" % segs(tr)
-    for tr in dict_arrays(rng, tier):
+    for tr in dict_arrays(rng, tier, huge=huge):
         yield "dict_enc %s" % segs(tr)
     for (a, b) in with_pairs(rng, tier):
         yield "dict_with %s %s" % (segs(a), segs(b))
+
+
+def generate_C02(rng, tier):
+    yield from generate_enc(rng, tier, huge=True)
 
 
 def generate_C16(rng, tier):
@@ -237,7 +245,7 @@ def generate_C16(rng, tier):
 
 def generate_C13(rng, tier):
     quick = tier == "quick"
-    for tr in rle_arrays(rng, tier, 120 if quick else 3000):
+    for tr in rle_arrays(rng, tier, 120 if quick else 700):
         n = sum(c for (c, _, _) in tr)
         if n <= 12:
             caps = list(range(0, n + 1))
@@ -251,7 +259,21 @@ def generate_C13(rng, tier):
         for cap in caps:
             yield "rle_cap %s 0 %d" % (segs(tr), cap)
             yield "rle_cap %s 1 %d" % (segs(tr), cap)
-    for tr in dict_arrays(rng, tier, 120 if quick else 3000):
+    # hostile run streams for varintRLEDecode: run lengths near 2^64 (wrapping sums), declared
+    # total >= cap so that the decoder stops inside the given bytes
+    for (runs, cap) in [([(5, 7), (U64 - 2, 9)], 8), ([(U64, 1)], 3), ([(1, 4), (U64, 5)], 2),
+                        ([(3, 1), ((1 << 63), 2), ((1 << 63), 3)], 10), ([(2, 8), (U64 - 1, 9)], 2),
+                        ([(7, 7), (U64 - 6, 1)], 7), ([(7, 7), (U64 - 6, 1)], 8), ([((1 << 64) - 8, 3)], 8)]:
+        yield "rle_hostile %s %d" % (hexs(sum((tput(l) + tput(v) for (l, v) in runs), [])), cap)
+    for _ in range(40 if quick else 400):
+        cap = rng.randint(1, 12)
+        runs, tot = [], 0
+        while tot < cap:
+            l = rng.choice([1, 2, 3, U64, U64 - rng.randint(0, 12), (1 << 63) + rng.randint(0, 3), 1 << 32])
+            runs.append((l, rng.choice([0, 1, 300, U64])))
+            tot += l
+        yield "rle_hostile %s %d" % (hexs(sum((tput(l) + tput(v) for (l, v) in runs), [])), cap)
+    for tr in dict_arrays(rng, tier, 120 if quick else 700):
         n = sum(c for (c, _, _) in tr)
         if n > 5000:
             if quick and tr[0][0] != 65536:
@@ -445,6 +467,15 @@ def o_rle_cap(args, c):
     return None
 
 
+def o_rle_hostile(args, c):
+    if _fault(c):
+        return _fault(c)
+    cap = int(args[1])
+    if c["guard"] != "ok" or int(c["touched"]) > cap or int(c["ret"]) > cap:
+        return "varintRLEDecode wrote/returned beyond capacity %d: ret=%s guard=%s" % (cap, c["ret"], c["guard"])
+    return None
+
+
 def o_dict_cap(args, c):
     if _fault(c):
         return _fault(c)
@@ -465,8 +496,8 @@ def o_rle_rc(args, c):
     if _fault(c):
         return _fault(c)
     n = (len(args[0]) - 1) // 2
-    if 2 * int(c["rc"]) > n:
-        return "%s runs reported for %d bytes (a run takes at least 2 bytes)" % (c["rc"], n)
+    if int(c["rc"]) > n:
+        return "%s runs reported for %d bytes (every counted run occupies at least one byte)" % (c["rc"], n)
     return None
 
 
@@ -528,6 +559,8 @@ def classify(case, m):
         return "%s-w%s" % (api, m.get("dw", "?")) if api == "dict_enc" else "dict_cap"
     if api == "dict_with":
         return "dict_with-" + ("miss" if m.get("n") == "0" else "ok")
+    if api == "rle_hostile":
+        return "rle_hostile"
     if api == "rle_rc":
         return "rle_rc-%s" % ("empty" if t[1] == "x" else "runs" if m.get("rc", "0") != "0" else "norun")
     if api == "dict_dec":
@@ -547,7 +580,7 @@ def search(rng, divergent):
                     q[j] = max(0, q[j] + d)
                     yield " ".join([t[0], "L" + ",".join(map(str, q))] + t[2:])
     r2 = random.Random(rng.getrandbits(32))
-    yield from generate_enc(r2, "thorough" if not divergent else "quick")
+    yield from generate_enc(r2, "quick")
     yield from generate_C13(r2, "quick")
     yield from generate_C14(r2, "quick")
 
@@ -556,7 +589,9 @@ TRUST = ["qsort/malloc/memcpy of libc behave as specified (qsort = the sorted pe
          "Coq.Sorting.Mergesort and Coq.FSets.FMapPositive of the standard library (used by the executable model)"]
 ASSUME = ["no size_t counter of the encoders wraps: 18*count < 2^64 (the destination buffer exists in memory)",
           "arrays of fewer than 2^32 elements for the dictionary codec (uint32_t unique counter)",
-          "decoder inputs of the non-length-taking RLE decoders are outputs of the RLE encoders (C02/C13/C16)"]
+          "varintRLEDecodeWithHeader / varintRLEGetAt / varintRLEGetCount take no input length: their inputs are "
+          "outputs of the RLE encoders (C02/C13/C16); varintRLEDecode is also covered on hostile run streams "
+          "whose declared lengths reach the capacity"]
 
 RULE_ENC = ("arrays given as segment lists: run lengths and array lengths on both sides of 240/241, 2287/2288, "
             "127..129, 4095..4097 (thorough: 65535/65536, 67823/67824), values from every tagged-length boundary and "
@@ -566,7 +601,7 @@ RULE_ENC = ("arrays given as segment lists: run lengths and array lengths on bot
             "without missing values, random small-alphabet arrays; non-trivial = count >= 1")
 
 PARTS = {
-    "C02": dict(coq_props=["Properties_C02_rledict"], files=FILES, rule=RULE_ENC, generate=generate_enc,
+    "C02": dict(coq_props=["Properties_C02_rledict"], files=FILES, rule=RULE_ENC, generate=generate_C02,
                 oracles={"rle_enc": o_rle_enc_C02, "dict_enc": o_dict_enc_C02, "dict_with": o_dict_with_C02},
                 classify=classify, search=search, assumptions=ASSUME, trusted_base=TRUST,
                 configs_quick=["pinned", "O0"]),
@@ -577,8 +612,8 @@ PARTS = {
     "C13": dict(coq_props=["Properties_C13_rledict"], files=FILES,
                 rule="valid encodings of the C02 arrays x capacities 0..count (all capacities for short arrays; 0, 1, "
                      "run boundaries +-1, count-1, count for long ones), output array of exactly cap elements inside "
-                     "canaries; non-trivial = count >= 1",
-                generate=generate_C13, oracles={"rle_cap": o_rle_cap, "dict_cap": o_dict_cap},
+                     "canaries; hostile run streams with lengths near 2^64 for varintRLEDecode; non-trivial = count >= 1",
+                generate=generate_C13, oracles={"rle_cap": o_rle_cap, "dict_cap": o_dict_cap, "rle_hostile": o_rle_hostile},
                 classify=classify, search=search, assumptions=ASSUME, trusted_base=TRUST,
                 configs_quick=["pinned", "O0"]),
     "C14": dict(coq_props=["Properties_C14_rledict"], files=FILES,
